@@ -259,8 +259,71 @@ def native_multicat_replay(dims, form):
                     ok, obs = False, dict(raised=f"{type(e).__name__}: {e}"[:200])
                 if not ok:
                     return dict(reproduced=True, route="R1 (real batched MultiCategorical vs per-row, per-component numpy log-softmax)", inputs={"form": form, "parameters": mk_name, "batch": Bn, "action_dims": list(dims)}, observed=obs)
-        return dict(reproduced=False, note="4 random parameter vectors and batched parameters (flat and sequence): log_prob, entropy, mode, sample_and_log_prob agree with the per-component computation")
+        # many classes in total, at most 127 per component (distreqx draws class indices as int8 - see the known finding of unit many-classes): the flat position of a class no longer
+        # fits int8, the returned log-probability must still be that of the returned sample
+        for bdims in ((100, 100), (50, 40, 30, 20), (127, 127)):
+            braw = rng.randn(sum(bdims)).astype(np.float32)
+            boffs = [sum(bdims[:i]) for i in range(len(bdims))]
+            blogp = [braw[o:o + d] - np.log(np.sum(np.exp(braw[o:o + d]))) for o, d in zip(boffs, bdims)]
+            try:
+                d = LD.MultiCategorical(logits=jnp.asarray(braw), action_dims=bdims)
+                for seed in range(6):
+                    s, lp = d.sample_and_log_prob(jax.random.key(seed))
+                    s = np.asarray(s).astype(np.int64)
+                    exp = float(sum(l[v] for l, v in zip(blogp, s)))
+                    lp2 = float(d.log_prob(jnp.asarray(s)))
+                    if abs(float(lp) - exp) > 1e-3 or abs(lp2 - exp) > 1e-3:
+                        return dict(reproduced=True, route="R1 (real MultiCategorical with more than 127 classes in total, at most 127 per component)", inputs=dict(action_dims=list(bdims), key=seed),
+                                    observed=dict(sample=s.tolist(), returned_log_prob=float(lp), log_prob_of_sample=lp2, per_component_sum=exp))
+            except Exception as e:
+                return dict(reproduced=True, route="R1 (real MultiCategorical with more than 127 classes in total, at most 127 per component)", inputs=dict(action_dims=list(bdims)), observed=dict(raised=f"{type(e).__name__}: {e}"[:200]))
+        return dict(reproduced=False, note="4 random parameter vectors and batched parameters (flat and sequence): log_prob, entropy, mode, sample_and_log_prob agree with the per-component computation; also with > 127 classes")
     return replay
+
+
+def native_many_classes():
+    """Categorical / MultiCategorical components with MORE than 127 classes: samples and the mode must be class indices in [0, n), sample_and_log_prob must return the (finite)
+    log-probability of the returned sample, log_prob of a valid index must be its log-softmax entry."""
+    rng = np.random.RandomState(9)
+    bad = []
+    for n in (128, 200, 300):
+        raw = rng.randn(n).astype(np.float32)
+        raw[n - 1] += 3.0          # the mode is the last class (index >= 127)
+        lsm = raw - np.log(np.sum(np.exp(raw)))
+        d = LD.Categorical(logits=jnp.asarray(raw))
+        m = int(np.asarray(d.mode()))
+        if m != n - 1:
+            bad.append(dict(law=f"Categorical({n} classes)", what="mode is not the arg-max class", mode=m, expected=n - 1))
+        lpv = float(d.log_prob(jnp.asarray(n - 1)))
+        if not abs(lpv - float(lsm[n - 1])) < 1e-4:
+            bad.append(dict(law=f"Categorical({n} classes)", what="log_prob of a valid class index", index=n - 1, log_prob=lpv, expected=float(lsm[n - 1])))
+        for seed in range(8):
+            s, lp = d.sample_and_log_prob(jax.random.key(seed))
+            s, lp = int(np.asarray(s)), float(lp)
+            if not (0 <= s < n) or not np.isfinite(lp) or abs(lp - float(lsm[s])) > 1e-4:
+                bad.append(dict(law=f"Categorical({n} classes)", what="sample_and_log_prob", key=seed, sample=s, returned_log_prob=lp, expected=float(lsm[s]) if 0 <= s < n else None))
+                break
+    raw = rng.randn(203).astype(np.float32)
+    d = LD.MultiCategorical(logits=jnp.asarray(raw), action_dims=(3, 200))
+    for seed in range(8):
+        s, lp = d.sample_and_log_prob(jax.random.key(seed))
+        s = np.asarray(s).astype(np.int64)
+        if s[1] < 0 or s[1] >= 200 or not np.isfinite(float(lp)):
+            bad.append(dict(law="MultiCategorical(action_dims=(3, 200))", what="sample_and_log_prob", key=seed, sample=s.tolist(), returned_log_prob=float(lp)))
+            break
+    return bad
+
+
+def unit_many_classes(S):
+    """Bounded native check of the laws with more than 127 classes per component.  distreqx (the delegate) casts samples and the mode to int8 and compares int8 values with the class
+    count, so such laws are incoherent on the unchanged tree: recorded as a known finding (known_findings.json), see DESIGN 10.4."""
+    fn = "lerax.distribution.categorical:Categorical"
+    S.under_contract(fn + ".sample_and_log_prob", fn + ".mode", fn + ".log_prob")
+    bad = native_many_classes()
+    S.bounded_check("categorical/more-than-127-classes/sample-mode-log_prob-coherent", not bad, bound="Categorical with 128, 200, 300 classes and MultiCategorical (3, 200), 8 keys each", function=fn,
+                    what="with more than 127 classes per component: samples and the mode are class indices in [0, n), the returned log-probability is the finite log-probability of the returned sample",
+                    detail=bad[:6], replay=lambda m: dict(reproduced=bool(bad), route="R1 (real Categorical / MultiCategorical with more than 127 classes)", cause="class indices are drawn / compared as int8 by the distreqx delegate",
+                                                          observed=bad[:6]))
 
 
 def unit_multicategorical(S):
@@ -343,4 +406,4 @@ def unit_multicategorical(S):
                         what="row b of the returned log-probability (and of log_prob) is the sum over the components' values for row b; row b of the sample stacks the components' draws for row b")
 
 
-UNITS = [("wrappers", unit_wrappers), ("multi-categorical", unit_multicategorical)]
+UNITS = [("wrappers", unit_wrappers), ("multi-categorical", unit_multicategorical), ("many-classes", unit_many_classes)]
